@@ -14,7 +14,7 @@ COMPONENTS_LIB = dict(
 
 LEGEND = {
     'stream': 'init|reinit slot kind variant L n1 n2 n3 seed (kind: 0 hash 1 hasha 2 xof 3 xofa 4 prf 5 hmac 6 hmaca 7 kmac 8 kmaca 9 kdf 10 kdfa 11 hkdf 12 hkdfa 13-15 incremental AEAD 128/128a/80pq; '
-              'variant: xof 0 plain 1 fixed 2 custom, prf 1 fixed, AEAD 0 enc 1 dec 2 dec-tampered; n1/n2/n3 = key/name/AD, custom/salt, info/message lengths); absorb slot len inplace; squeeze slot len; '
+              'variant: xof 0 plain 1 fixed 2 custom, prf 1 fixed, AEAD 0 enc 1 dec 2 dec-tampered; n1/n2/n3 = key/name/AD, custom/salt, info/message lengths; AEAD: (seed>>9)%12 == 1 on a reinit passes the nonce field of the object itself as the nonce argument, == 2 a NULL nonce, == 3 a NULL key); absorb slot len inplace; squeeze slot len; '
               'copy dst src; pad slot (XOF/XOFA while absorbing: must act like absorbing zero bytes up to the block boundary); next slot dir adlen mlen seed (next packet on the same AEAD state); end slot; free slot; perm slot round seed; huge family pending extra seed (thorough: `pending` bytes, then ONE call of 2^32+extra bytes, against the single-call function); oneshot slot fn outlen inlen saltlen count seed (fn 0 prf_short 1 mac 2 mac+verify 3 pbkdf2 4 pbkdf2_hmac); sapi slot steps seed (seeded sequence of add/overwrite/zero/extract/extract-and-add/extract-and-overwrite/permute on a bare state over all offset+size <= 40); knob.page 1 = buffers against guard pages; knob.twin 1 = twin-secret run',
     'channel': 'sess s family keyseed carry keypaths (family = class*3+alg; keypaths bit0/bit1: sender/receiver C++ object keyed through its key constructor instead of set_key; class 0 one-shot 1 incremental 2 masked 3 siv 4 isap 5-8 the C++ classes; carry = trailing 0xFF bytes of the starting nonce); '
                'send s mlen adlen seed rngdead (incremental families: one packet in eight uses the nonce field of the session itself as associated data; one block call in six is empty; a third of the chunked packets in place); deliver s which fault faultseed keep rngdead (rngdead 1 = the system entropy source fails while the packet is processed; fault 1 flip ct 2 flip tag 3 flip AD 4 truncate 5 extend 6 multi-bit 7 AD length 8 last tag bit); drop s which; '
@@ -22,7 +22,7 @@ LEGEND = {
                'hugead family seed (thorough: one packet over 2^32+11 bytes of associated data, then one AD byte changed); storm s packet what seed keypath (single-bit flips of 0 ct||tag 1 AD 2 nonce 3 key through fresh receiver objects); close s',
     'prng': 'knob.tape kind seed; knob.flash size page erase; knob.flip seed (which tape/feed byte the influence twins flip); boot load nvfault nvarg transient permfail; fetch n transient permfail; feed n seed; '
             'reseed transient permfail; save|load nvfault nvarg transient permfail (nvfault 1 read error 2 short read 3 write error 4 short write 5 torn write + power loss 14 NULL storage 15 NULL state); grandom n transient permfail (ascon_random); free',
-    'cli': 'knob.chunk max bytes per read/write; knob.eintr every n-th call interrupted; knob.rounds PBKDF2 rounds (0 = real); file name len seed; enc|dec name pw flags keyfile-ending rngfail then two fault slots '
+    'cli': 'knob.chunk max bytes per read/write; knob.eintr every n-th call interrupted; knob.rounds PBKDF2 rounds (0 = real); file name len seed; enc|dec name pw flags keyfile-ending rngfail then two fault slots (pw 0..9 ten unrelated passwords incl. empty, 1023, 1024 and 1025 characters; pw 10..19 the neighbour of pw-10: last character changed or one appended) '
            '(syscall ordinal kind arg; syscall 0 open-r 1 open-w 2 read 3 write 6 fopen 7 fread; kind 1 EINTR 2 EAGAIN 3 short 4 EIO 5 ENOSPC 6 EACCES 7 crash after arg bytes); flags bit0 explicit -e/-d bit1 -o bit2 key file bit3 stdin/stdout; '
            'tamper name kind seed; gen keyfile rngfail + faults; sum alg filemask missing + fault; chk alg filemask spoil seed + two short-fread slots; multi nfiles pw tamper seed + faults (several inputs in one invocation: joint encryption under faults, then joint decryption with one container spoiled); sweep name kind seed (thorough); hostile kind k seed',
     'bytes': 'hexenc n upper capsel seed; hexdec nbytes kind capsel seed (kind 0 clean 1 whitespace 2 illegal char 3 odd digits; capsel exact/-1/0/+1/+17); hexcpp nbytes kind how seed; '
@@ -30,7 +30,7 @@ LEGEND = {
     'masked': 'knob.tape kind seed (0 random 1 zero 2 ones 3 const 4 period2 5 period3 6 counter 7 adversarial); w.* word ops (word, shares/other, size, seed); s.* state ops (state, shares|round, fresh-preserve, seed); k.key which how seed; a.aead alg mlen adlen tamper seed rerandomize (0 never 1 before first use 2 between encrypt and decrypt 3 both 4/5 = 1/2 with the library\'s own source); knob.page 1 = inputs/outputs and every word/state against guard pages; knob.unhealthy 1 = ascon_trng_init/_reseed report failure while values still flow',
     'keystore': 'key slot alg keyseed home; enc slot mlen adlen seed; dec slot mlen adlen seed tamper; save slot; restart slot where (bit0 other memory, bit1 dirty); free slot; siv alg mlen adlen seed',
     'cppobj': 'knob.rngdead r (operations at index % 8 == r run with the system entropy source dead; 99 = never); new obj class alg how keyseed (how 0 default 1 key ctor 2 NULL key 3 ISAP saved key 4 ISAP len 0); setkey obj how seed (0 full 1 zero-len NULL 2 zero-len non-NULL 3 saved ISAP key 4 length 7 then full); '
-              'enc|dec obj mlen adlen seed overload [tamper]; setnonce obj len seed; setcounter obj n; savekey|randomize|clear|del obj; hnew h kind how namelen customlen seed; hupd h overload len seed; hout h overload len; hcopy dst src; hassign dst src; hpad|hreset|hdel h; hdigest alg len seed; helper flags n shape seed (byte-array helpers vs the C functions; shape 0 clean 1 white space 2 illegal character 3 odd 4 mixed case 5 empty)',
+              'enc|dec obj mlen adlen seed overload [tamper] (byte_array overloads: seed bit 21 = the long-lived output array is reused and a by-value copy of its previous content is kept and re-checked); setnonce obj len seed; setcounter obj n; savekey|randomize|clear|del obj; hnew h kind how namelen customlen seed; hupd h overload len seed; hout h overload len; hcopy dst src; hassign dst src; hpad|hreset|hdel h; hdigest alg len seed; helper flags n shape seed (byte-array helpers vs the C functions; shape 0 clean 1 white space 2 illegal character 3 odd 4 mixed case 5 empty)',
     'threads': 'knob.threads n; knob.sched mode rate seed changepoints (mode 0 Bernoulli 1/rate, 1 change points); op thread kind mlen adlen seed flags (bit0 shared constant inputs, bits1-2 == 01 tampered packet, bits3-4 == 01 the entropy source fails during the operation; kind 0-17 C API, 18-21 C++ wrappers, 22 masked key toolkit 23 copies from shared states/reinit variants/hex codec/bare state 24 PRNG reseed+save+load 25 every thread decrypts into its own 13-byte slice of one buffer)',
 }
 
